@@ -321,6 +321,24 @@ func (m *c19Model) stepPlain(op string) c19Exp {
 	src := m.st.Src.B
 	fail := m.st.failAt()
 	switch op {
+	case "repos", "rewind":
+		// set_stream_position/2 on a file: to the position just read from the stream (nothing changes) / to 0
+		if m.st.Host {
+			return c19Skip("not_repositionable")
+		}
+		if fail >= 0 {
+			return c19Skip("io_error")
+		}
+		if op == "rewind" {
+			m.cur = 0
+			m.past = c19PastNo
+			if len(src) == 0 {
+				m.past = c19PastUnknown
+			}
+		} else if m.cur == len(src) {
+			m.past = c19PastUnknown // whether the stream still counts as past its end after the call is open
+		}
+		return c19Val(term.A("ok"))
 	case "position":
 		e := c19Val(term.I(int64(m.cur)))
 		e.AtEnd = m.cur == len(src)
@@ -500,6 +518,10 @@ func c19Goal(op string, i int, acc string, wrap bool) string {
 		} else {
 			g = "(at_end_of_stream(S) -> " + v + " = true ; " + v + " = false)"
 		}
+	case "repos":
+		g = fmt.Sprintf("stream_property(S, position(P%d)), set_stream_position(S, P%d), %s = ok", i, i, v)
+	case "rewind":
+		g = fmt.Sprintf("set_stream_position(S, 0), %s = ok", v)
 	case "position":
 		g = "stream_property(S, position(" + v + "))"
 	case "eos":
@@ -618,7 +640,7 @@ func c19InItem(st c19Stream, ops []string, family string, dropShort bool) *Item 
 var (
 	c19CoreText = []string{"get_char", "peek_char", "read_term", "at_end", "position", "get_char_b"}
 	c19FullText = []string{"get_char", "peek_char", "read_term", "at_end", "position", "eos", "get_code", "peek_code"}
-	c19FileText = []string{"get_char", "peek_char", "read_term", "eos", "get_char_b"}
+	c19FileText = []string{"get_char", "peek_char", "read_term", "eos", "get_char_b", "repos"}
 	c19MidText  = []string{"get_char", "peek_char", "read_term", "at_end", "position", "eos"}
 	c19CoreBin  = []string{"get_byte", "peek_byte", "at_end", "position", "get_byte_b"}
 	c19FullBin  = []string{"get_byte", "peek_byte", "at_end", "position", "eos"}
@@ -875,6 +897,10 @@ func (c *c19) randomPart(cx *Ctx, n int) c19Part {
 			names = []string{"get_byte", "peek_byte", "at_end", "position", "eos", "get_char", "read_term", "peek_char", "get_byte_b", "peek_byte_b", "get_char_b"}
 			weights = []int{30, 22, 10, 14, 12, 2, 1, 4, 9, 5, 1}
 			drain = []string{"get_byte", "peek_byte"}
+		}
+		if !st.Host {
+			names = append(append([]string{}, names...), "repos", "rewind")
+			weights = append(append([]int{}, weights...), 7, 3)
 		}
 		var ops []string
 		for k, l := 0, 1+r.Intn(10); k < l; k++ {
